@@ -68,13 +68,17 @@ def check(prog, res, tier):
         return it.call_function(bfi, [s], {})
     runs_b = Runs(prog, entry_b, res=res)
 
-    # sample size read by ipm_info
+    # sample size read by ipm_info (observed on its abstract paths)
     S = None
-    for n in ast.walk(ifi.node):
-        if isinstance(n, ast.Call) and isinstance(n.func, ast.Attribute) and n.func.attr == 'read' and n.args \
-                and isinstance(n.args[0], ast.Constant) and isinstance(n.args[0].value, int):
-            S = n.args[0].value
-            break
+
+    def entry_s(it):
+        return it.call_function(ifi, [it.new_file('in', tags=WIRE)], {})
+    for p in Runs(prog, entry_s, res=res).inv:
+        for e in p.events:
+            if e.kind == 'read' and e.func == ifi.short and e.data['size'] is not None:
+                c = p.store.canon(Lin.of(e.data['size']))
+                if c.is_const():
+                    S = c.c if S is None else min(S, c.c)
     ob = Ob('C17.a', 'the inspection sample is large enough to see the trailers of the first two blocks', func_where(ifi),
             'sample_data = input_data.read(N)', rule='C17.a.sample')
     if S is None:
